@@ -27,6 +27,14 @@ REG = {
                          "reference layouts coq/Wire/Types.v transcribed from docs/HLProtocol.pages.pdf (spec/wire-layouts.md)",
                          "modelled, not verified: io.ReadAll / io.Copy (as draining scripts), bufio.Scanner token limit, binary.Read, bcrypt inside Account.Read (abstracted to the has-password flag)"],
     },
+    "C02": {
+        "assumptions": [
+            "a Read on the connection returns a non-empty piece of the remaining bytes, of any size (TCP may split or coalesce); urgent data, deadlines and half-close timing are not modelled (not used by mobius)",
+            "bufio.Scanner is abstracted to: pending bytes, 64 KiB buffer limit, split function called on the pending bytes; validated against the real bufio.Scanner + transactionScanner on every run (op 3 cases)",
+            "io.ReadFull / binary.Read / io.CopyN are modelled as read_full / copy_n over the chunk list",
+        ],
+        "trusted_base": ["modelled, not verified: bufio.Scanner, io.ReadFull, io.CopyN, net.Pipe as the in-memory connection whose reads return exactly the scripted pieces"],
+    },
     "C16": {
         "assumptions": [
             "YAML documents are modelled as key->bool association lists; yaml.v3 itself (struct marshalling in field order, mapping/sequence decoding) is exercised through the real account manager on every run, not verified",
